@@ -121,24 +121,36 @@ def run_history(case):
     dirty = False
     out = ["ok~" + dump(False)]
     enc = []
+    committed = list(p.config_objs.data)      # the objects of the last commit, by committed line number
+
+    def skip(op, row, newtext):
+        enc.append(enc_op(op, row, "" if (op[0] == "sub" and newtext is None) else newtext))
+        out.append("skip~" + dump(dirty))
+
     for op in case["ops"]:
         k = op[0]
-        n = len(p.config_objs)
         status = "ok"
         changed = False
         row = newtext = None
+        at = ""
         try:
             if k in ("lib", "lia"):
-                row = [re.search(op[1], t) is not None for t in p.get_text()] if op[1] != "" else [False] * n
+                row = [re.search(op[1], t) is not None for t in p.get_text()] if op[1] != "" else [False] * len(p.config_objs)
             if k in ("oib", "oia", "del", "atf", "rep", "sub"):
-                if dirty or n == 0:
-                    status = "skip"
-                    if k == "sub":
-                        newtext = ""
-                    enc.append(enc_op(op, row, newtext))
-                    out.append(status + "~" + dump(dirty))
+                if not committed:
+                    skip(op, row, newtext)
                     continue
-                obj = p.config_objs[op[1] % n]
+                obj = committed[op[1] % len(committed)]
+                present = any(o is obj for o in p.config_objs.data)
+                if k in ("del", "atf") and dirty:
+                    # delete()/append_to_family() index by the stored line number, which is documented to be
+                    # stale until the next commit; not modelled on an uncommitted state
+                    skip(op, row, newtext)
+                    continue
+                if not present:
+                    skip(op, row, newtext)
+                    continue
+                at = "@%d" % [j for j, o in enumerate(p.config_objs.data) if o is obj][0]
             if k == "ins":
                 p.config_objs.insert(op[1], op[2]); changed = True
             elif k == "app":
@@ -178,12 +190,16 @@ def run_history(case):
             status = "err:NotImplementedError"
         except ValueError:
             status = "err:ValueError"
+        except Exception as e:  # noqa: BLE001 — anything else is reported as the operation's outcome, for the oracle to judge
+            status = "err:" + type(e).__name__
         if k == "sub" and newtext is None:
             newtext = ""
         if changed and status == "ok" and not auto:
             dirty = True
+        if not dirty:
+            committed = list(p.config_objs.data)
         enc.append(enc_op(op, row, newtext))
-        out.append(status + "~" + dump(dirty))
+        out.append(status + at + "~" + dump(dirty))
     ds = T.cfg_delims(case["syntax"], case["delims"])
     req = wire.req("edit", "1" if case["syntax"] == "ios" else "0", wire.enc_str("".join(ds)),
                    "1" if case["ignore_blank"] else "0", "1" if auto else "0", str(width_of(case["syntax"])),
@@ -196,8 +212,10 @@ def parse_answer(ans):
     steps = []
     for part in ans.split("#"):
         status, fresh, dump = part.split("~", 2)
+        status, _, at = status.partition("@")
+        at = int(at) if at else None
         if fresh == "-":
-            steps.append((status, fresh, wire.dec_strs(dump), None))
+            steps.append((status, fresh, wire.dec_strs(dump), None, at))
         else:
             f = dump.split("|")
             nat = lambda w: [int(x) for x in w.split(",")] if w else []  # noqa: E731
@@ -205,5 +223,5 @@ def parse_answer(ans):
             steps.append((status, fresh, texts, {
                 "linenums": nat(f[1]), "parents": nat(f[2]),
                 "children": [nat(w) for w in f[3].split(";")] if texts else [],
-            }))
+            }, at))
     return steps
